@@ -79,6 +79,30 @@ func c07Scenarios(thorough bool) []ConcScenario {
 	out = append(out, seq)
 	prw := ConcScenario{Name: "two-ws+ws-read-return", Deviation: true, PostRead: true, Plans: []TunnelPlan{c07Plan("ws", "A", 1, "drop"), c07Plan("ws", "B", 2, "drop")}}
 	out = append(out, prw)
+	// the gateway is configured with an idle timeout (minutes; nobody is idle that long here)
+	for _, kinds := range [][2]string{{"ws", "legacy"}, {"legacy", "legacy"}, {"legacy", "ws"}} {
+		out = append(out, ConcScenario{Name: fmt.Sprintf("two-%s+%s-idle-timeout-configured", kinds[0], kinds[1]), Deviation: true, RoundRobin: true, IdleTimeout: 30,
+			Plans: []TunnelPlan{c07Plan(kinds[0], "A", 1, "close"), c07Plan(kinds[1], "B", 2, "drop")}})
+	}
+	// many tunnels at the same time (the default schedule advances them in lockstep, so all of them are in the same
+	// phase together): each behaves as when it is alone. One schedule each.
+	for _, n := range []int{17, 64} {
+		many := ConcScenario{Name: fmt.Sprintf("many-%d-in-lockstep", n), Deviation: true, RoundRobin: true, MaxSteps: 400000}
+		for i := 0; i < n; i++ {
+			kind, end := "ws", "close"
+			if i%3 == 1 {
+				kind = "legacy"
+			}
+			if i%2 == 1 {
+				end = "drop"
+			}
+			pl := c07Plan(kind, fmt.Sprintf("T%02d", i), i+1, end)
+			// all tunnels stay until every one of them has its channel and its bytes
+			pl.Script = append(append([]string{}, pl.Script[:3]...), append([]string{"barrier"}, pl.Script[3:]...)...)
+			many.Plans = append(many.Plans, pl)
+		}
+		out = append(out, many)
+	}
 	if thorough {
 		out = append(out, ConcScenario{Name: "three-ws+legacy+ws", Deviation: true,
 			Plans: []TunnelPlan{c07Plan("ws", "A", 1, "close"), c07Plan("legacy", "B", 2, "close"), c07Plan("ws", "C", 3, "drop")}})
@@ -255,8 +279,8 @@ func c07(env *Env, rep *Report) {
 		names = append(names, s.Name)
 	}
 	rep.Rule = "two (thorough: also three) tunnels with distinct connection ids, users, token hosts, client addresses and backends on transports {ws+ws, ws+legacy, legacy+legacy}, each doing setup, two tagged data packets, receiving two tagged host chunks, then close or abrupt drop (" + strings.Join(names, ", ") + "); every schedule of all clients, handlers, relay goroutines and backends up to the deviation bound. " +
-		"Oracle (differential non-interference): in every schedule each tunnel's observation (responses, bytes at its client, bytes at its host, dials) equals the observation of that tunnel run alone, and no tagged byte of one tunnel shows up in another. Plus histories of tunnels coming and going one after the other (4 histories x 3 transport mixes) with the registry of live tunnels observed after every step: exactly the live tunnels, each with its own user, target and id. Plus the pairing scenario: a legacy RDG_IN_DATA with another connection id never attaches to an existing RDG_OUT_DATA. distinct_nontrivial = distinct per-schedule observations."
-	rep.Assumptions = append(rep.Assumptions, "2-3 tunnels (64 are out of reach of exhaustive interleaving; nothing in the gateway depends on the count)", "deviation bounding: every departure from the default schedule costs 1")
+		"Oracle (differential non-interference; the scenarios with 17 and 64 simultaneous tunnels run their lockstep schedule only): in every schedule each tunnel's observation (responses, bytes at its client, bytes at its host, dials) equals the observation of that tunnel run alone, and no tagged byte of one tunnel shows up in another. Plus histories of tunnels coming and going one after the other (4 histories x 3 transport mixes) with the registry of live tunnels observed after every step: exactly the live tunnels, each with its own user, target and id. Plus the pairing scenario: a legacy RDG_IN_DATA with another connection id never attaches to an existing RDG_OUT_DATA. distinct_nontrivial = distinct per-schedule observations."
+	rep.Assumptions = append(rep.Assumptions, "2-3 tunnels for the interleaving search; 17 and 64 simultaneous tunnels in one lockstep schedule each", "deviation bounding: every departure from the default schedule costs 1")
 	bound := 2
 	if env.thorough() {
 		bound = 3
@@ -269,7 +293,7 @@ func c07(env *Env, rep *Report) {
 			if sc.Gw.Hosts != nil {
 				gwc = sc.Gw
 			}
-			r := RunConc(ConcScenario{Name: "alone", Plans: []TunnelPlan{p}, Gw: gwc, RealCookie: sc.RealCookie, Segmented: sc.Segmented, PostRead: sc.PostRead}, nil, false)
+			r := RunConc(ConcScenario{Name: "alone", Plans: []TunnelPlan{p}, Gw: gwc, RealCookie: sc.RealCookie, Segmented: sc.Segmented, PostRead: sc.PostRead, IdleTimeout: sc.IdleTimeout}, nil, false)
 			alone = append(alone, c07Obs(r.Tunnels[0]))
 			// the reference observation must itself be a working tunnel: the gateway process has served other
 			// tunnels before this one (earlier scenarios, the other tunnel's reference run), and none of
@@ -305,6 +329,9 @@ func c07(env *Env, rep *Report) {
 		b := bound
 		if len(sc.Plans) > 2 {
 			b = 2
+		}
+		if strings.HasPrefix(sc.Name, "many-") {
+			b = 0
 		}
 		if strings.Contains(sc.Name, "similar-ids") {
 			b-- // what they look for (two identifiers taken for one) shows without an unusual schedule
